@@ -355,6 +355,7 @@ def o155(ctx):
     for out, cur, want in (("xyz", "zyx", True), ("zyx", "zyx", False)):
         it = Interp(ctx.prog, assume=assume_map({"return_data.dtype != self.data_type": False, "new_data is not None": False}))
         data = Unk(sym("stack"))
+        data.rank = 3
         me = Obj("tiltstack.TiltStack", {"data": data, "data_type": Unk(sym("dtype")), "current_order": K(cur), "output_order": K(out)})
         r = it.run(qc, [], {}, self_obj=me)
         perms = [tuple(tm.cval(a) for a in n.args[2:]) for n in tm.walk(to_term(r.ret)) if n.op == "call" and n.args[0] == ".transpose"]
@@ -366,7 +367,9 @@ def o155(ctx):
     for out, cur in (("xyz", "zyx"), ("zyx", "zyx")):
         it = Interp(ctx.prog, assume=assume_map({"return_data.dtype != self.data_type": True, "new_data is not None": True}))
         me = Obj("tiltstack.TiltStack", {"data": Unk(sym("stack")), "data_type": Unk(sym("dtype")), "current_order": K(cur), "output_order": K(out)})
-        r = it.run(qc, [Unk(sym("result"))], {}, self_obj=me)
+        res_ = Unk(sym("result"))
+        res_.rank = 3
+        r = it.run(qc, [res_], {}, self_obj=me)
         t_ = to_term(r.ret)
         cast_ok = tm.contains(t_, lambda n: n.op == "call" and n.args[0] == ".astype" and len(n.args) > 2 and n.args[1] == sym("result") and n.args[2] == sym("dtype"))
         ctx.count(1, {"output_order": out, "result of another type": tm.show(t_)[:80]})
